@@ -259,6 +259,26 @@ theorem C14_ma_first_dim_clamp_witness :
   rw [← hy] at h1
   norm_num at h1
 
+/-- the whole deterministic agent (real actor `forward` + `get_action`): if the head's output lies in
+    the range of its bounded activation, DDPG / TD3 and (repaired) MADDPG / MATD3 return an action
+    inside the per-dimension bounds in training *and* evaluation mode — in evaluation mode because
+    the actor's rescaling already lands inside the bounds -/
+theorem C14_agent_in_bounds (act : OutAct) (pmin pmax : Rat) (hact : prescaled act = some (pmin, pmax))
+    (tr : Bool) (los his h noise : List Rat) (env : List (Option Rat))
+    (i : Nat) (lo hi x nz : Rat) (e : Option Rat)
+    (hlo : los[i]? = some lo) (hhi : his[i]? = some hi) (hx : h[i]? = some x)
+    (hn : noise[i]? = some nz) (he : env[i]? = some e) (hle : lo ≤ hi)
+    (h1 : pmin ≤ x) (h2 : x ≤ pmax) (henv : ∀ v, e = some v → lo ≤ v ∧ v ≤ hi) :
+    (∃ y, (ddpgAgent act tr los his h noise)[i]? = some y ∧ lo ≤ y ∧ y ≤ hi) ∧
+    (∃ y, (maContAgent act true tr los his h noise env)[i]? = some y ∧ lo ≤ y ∧ y ≤ hi) := by
+  obtain ⟨y0, hy0, b1, b2⟩ := C14_rescale_in_bounds act pmin pmax hact (los.map some) (his.map some) h
+    (by simp) (by simp) i lo hi x (by simp [hlo]) (by simp [hhi]) hx hle h1 h2
+  constructor
+  · exact C14_clip_in_bounds tr los his _ noise i lo hi y0 nz hlo hhi hy0 hn hle
+  · obtain ⟨y, hy, c1, c2, -⟩ := C14_ma_in_bounds tr los his (actorOut act los his h) noise env i lo hi y0 nz e
+      hlo hhi hy0 hn he hle (fun _ => ⟨b1, b2⟩) henv
+    exact ⟨y, hy, c1, c2⟩
+
 /-! ### stochastic policies in evaluation mode -/
 
 /-- PPO / IPPO evaluation mode on a Box: clipping always lands inside the bounds; with a squashing
